@@ -1,0 +1,22 @@
+//go:build verif
+
+package webtransport
+
+import (
+	"io"
+
+	"github.com/karagenc/socket.io-go/engine.io/parser"
+)
+
+// Exports of the unexported WebTransport framer for the runtime-verification harness.
+
+func VerifSend(w io.Writer, packet *parser.Packet) error { return send(w, packet) }
+
+// VerifNextPacket reads one frame through the real limitedReader, exactly as
+// the server transport does.
+func VerifNextPacket(r io.Reader, limit int64) (*parser.Packet, error) {
+	return nextPacket(newLimitedReader(r, limit))
+}
+
+// VerifNextPacketRaw reads one frame without the limiting reader, as the client transport does.
+func VerifNextPacketRaw(r io.Reader) (*parser.Packet, error) { return nextPacket(r) }
